@@ -21,11 +21,12 @@ type RCell struct {
 	DeclMask uint8
 	Parsed   bool
 
-	maskDone bool
-	mask     uint8
-	hashes   [4][]byte
-	depths   [4]int
-	done     [4]bool
+	wf, wfDone bool
+	maskDone   bool
+	mask       uint8
+	hashes     [4][]byte
+	depths     [4]int
+	done       [4]bool
 }
 
 func (c *RCell) Type() int {
@@ -38,13 +39,29 @@ func (c *RCell) Type() int {
 	return int(c.Data[0])
 }
 
+// kind is Type() for well-formed cells and -1 for ill-formed special cells; the hasher treats the latter
+// like ordinary data (their hash is never compared with the implementation, it only has to exist so that
+// ill-formed trees can be serialised and keyed).
+func (c *RCell) kind() int {
+	if !c.Special {
+		return 0
+	}
+	if !c.wfDone {
+		c.wf, c.wfDone = c.WellFormed() == nil, true
+	}
+	if !c.wf {
+		return -1
+	}
+	return int(c.Data[0])
+}
+
 // Mask derives the level mask from structure.
 func (c *RCell) Mask() uint8 {
 	if c.maskDone {
 		return c.mask
 	}
 	var m uint8
-	switch c.Type() {
+	switch c.kind() {
 	case 0:
 		for _, r := range c.Refs {
 			m |= r.Mask()
@@ -101,7 +118,7 @@ func (c *RCell) compute(l int) {
 		return
 	}
 	m := c.Mask()
-	if c.Type() == 1 && l < c.Level() {
+	if c.kind() == 1 && l < c.Level() {
 		// stored value: index = number of significant levels below or at l (popcount of applied mask)
 		idx := bits.OnesCount8(applyMask(m, l))
 		n := bits.OnesCount8(m)
@@ -112,7 +129,7 @@ func (c *RCell) compute(l int) {
 	}
 	h := sha256.New()
 	h.Write([]byte{c.d1(l), c.d2()})
-	if l == 0 || c.Type() == 1 {
+	if l == 0 || c.kind() == 1 {
 		h.Write(c.padded())
 	} else {
 		// previous significant level
@@ -121,7 +138,7 @@ func (c *RCell) compute(l int) {
 		h.Write(c.hashes[pl])
 	}
 	cl := l
-	if t := c.Type(); t == 3 || t == 4 {
+	if t := c.kind(); t == 3 || t == 4 {
 		cl = l + 1
 	}
 	depth := 0
